@@ -162,7 +162,7 @@ def check(rep):
                 elif op == "reseed":
                     core._GLOBAL_RNG.bit_generator.state = np.random.default_rng(seed).bit_generator.state
             except Exception as e:  # noqa
-                if "endless loop" in str(e) or isinstance(e, (ffh.FfAssignmentError,)):
+                if fw.scipy_draw_failure(e) or isinstance(e, (ffh.FfAssignmentError,)):
                     continue
                 if op in ("agraph", "rgraph", "mirror", "type", "global_generate"):
                     continue      # these operations have their own properties; here only their side effects matter
